@@ -25,6 +25,9 @@ pub enum Script {
     Ret(Value),
     Arg(usize),
     Fail,
+    // an Err of another kind than Fail's: the error of a nested evaluation handed on (1: a call of an unregistered function,
+    // 2: a division by zero, 3: a parse error, 4: an unknown operator's operand error)
+    FailKind(u8),
     Panic,
     Seq(Action, Box<Script>),
     Count(Vec<Script>),
@@ -178,6 +181,7 @@ pub fn p_script(c: &mut Cur) -> Script {
         b'r' => Script::Ret(p_value(c)),
         b'a' => Script::Arg(c.field().parse().unwrap()),
         b'e' => Script::Fail,
+        b'E' => { let k = c.peek() - b'0'; c.p += 1; Script::FailKind(k) }
         b'p' => Script::Panic,
         b'q' => { let a = p_action(c); let k = p_script(c); Script::Seq(a, Box::new(k)) }
         b'k' => {
@@ -252,6 +256,13 @@ fn run_script(s: &Script, n: usize, args: &Vec<Value>) -> expression_engine::Res
         Script::Ret(v) => Ok(v.clone()),
         Script::Arg(i) => Ok(args.get(*i).cloned().unwrap_or(Value::None)),
         Script::Fail => an_error(),
+        Script::FailKind(k) => {
+            let src = match k { 1 => "no_such_function__(1)", 2 => "1 / 0", 3 => "(1", _ => "- 'a'" };
+            match expression_engine::execute(src, expression_engine::create_context!()) {
+                Err(e) => Err(e),
+                Ok(_) => an_error(),
+            }
+        }
         Script::Panic => panic!("scripted handler panic"),
         Script::Seq(a, k) => { run_action(a); run_script(k, n, args) }
         Script::Count(l) => {
